@@ -955,6 +955,73 @@ theorem basis_file_roundtrip_sparse (lib : AsdfLib) (hl : AsdfFaithful lib) (nam
           obtain ⟨b', h1, h2, h3, h4⟩ := fits_basis_sparse_roundtrip b c g m htm hg h hnd hshape file hw
           simp [bind, Except.bind, hd, ht, Except.map, hw, h1, h2, h3, h4, hg]
 
+/-- **The format read is the format written, for every accepted file name**: whatever the writer
+produced for `(filename, fmt)` is a file of exactly the format that `formatOf filename fmt` resolves
+to — which is the format the reader called with the same `(filename, fmt)` dispatches on.  With
+`fmt=None` the names accepted are those `_guess_file_format` knows (`guess_extensions`), an explicit
+`fmt` overrides the name altogether. -/
+theorem file_format_is_resolved_format (lib : AsdfLib) (name : List Char) (fmt : Option String) :
+    (∀ g st, writeGridFile lib name fmt g = .ok st → formatOf name fmt = .ok st.fmt) ∧
+    (∀ l f st, writeFieldFile lib l name fmt f = .ok st → formatOf name fmt = .ok st.fmt) ∧
+    (∀ b st, writeBasisFile lib name fmt b = .ok st → formatOf name fmt = .ok st.fmt) ∧
+    ((formatOf name none).toBool = true ↔ (guessFormat name).isSome = true) ∧
+    (∀ s, formatOf name (some s) = dispatch s) := by
+  refine ⟨?_, ?_, ?_, ?_, ?_⟩
+  · intro g st hw
+    unfold writeGridFile at hw
+    unfold formatOf
+    cases hr : resolveName name fmt with
+    | error e => simp [hr, bind, Except.bind] at hw
+    | ok s =>
+      cases hd : dispatch s with
+      | error e => simp [hr, hd, bind, Except.bind] at hw
+      | ok k =>
+        cases k <;> simp [hr, hd, bind, Except.bind, Except.map, writeGridAsdf, writeGridFits] at hw <;>
+          subst hw <;> simp [Except.bind, hd, Stored.fmt]
+  · intro l f st hw
+    unfold writeFieldFile at hw
+    unfold formatOf
+    cases hr : resolveName name fmt with
+    | error e => simp [hr, bind, Except.bind] at hw
+    | ok s =>
+      cases hd : dispatch s with
+      | error e => simp [hr, hd, bind, Except.bind] at hw
+      | ok k =>
+        cases k <;> simp only [hr, hd, bind, Except.bind, Except.map] at hw
+        · cases hx : writeFieldAsdf lib f with
+          | error e => simp [hx] at hw
+          | ok file => simp [hx] at hw; subst hw; simp [Except.bind, hd, Stored.fmt]
+        · cases hx : writeFieldFits f with
+          | error e => simp [hx] at hw
+          | ok file => simp [hx] at hw; subst hw; simp [Except.bind, hd, Stored.fmt]
+        · injection hw with hw; subst hw; simp [Except.bind, hd, Stored.fmt]
+  · intro b st hw
+    unfold writeBasisFile at hw
+    unfold formatOf
+    cases hr : resolveName name fmt with
+    | error e => simp [hr, bind, Except.bind] at hw
+    | ok s =>
+      cases ht : b.toDict with
+      | error e => simp [hr, ht, bind, Except.bind] at hw
+      | ok t =>
+        cases hd : dispatch s with
+        | error e => simp [hr, ht, hd, bind, Except.bind] at hw
+        | ok k =>
+          cases k <;> simp only [hr, ht, hd, bind, Except.bind, Except.map] at hw
+          · cases hx : writeBasisAsdf lib b with
+            | error e => simp [hx] at hw
+            | ok file => simp [hx] at hw; subst hw; simp [Except.bind, hd, Stored.fmt]
+          · cases hx : writeBasisFits b with
+            | error e => simp [hx] at hw
+            | ok file => simp [hx] at hw; subst hw; simp [Except.bind, hd, Stored.fmt]
+          · injection hw with hw; subst hw; simp [Except.bind, hd, Stored.fmt]
+  · unfold formatOf resolveName
+    cases hg : guessFormat name with
+    | none => simp [Except.bind, Except.toBool]
+    | some k => cases k <;> simp [Except.bind, Except.toBool, dispatch, Fmt.name, Fmt.ofName?]
+  · intro s
+    rfl
+
 /-! ## chains of file round trips -/
 
 /-- **Chains of files, of any length** (what the harness does with A > B > C): a grid that went
